@@ -29,7 +29,7 @@ RULE = ("one run = a history of 1..4 manager process lifetimes (quick; 1..6 thor
         "power cycle and a restart; non-trivial = a PIN exchange reached the device; distinct = tuple "
         "(platform, initial state, per-lifetime (force, new-PIN behaviour, fault kind, fault position "
         "class, outcome))")
-TIERS = {"quick": {"runs": 6000, "wall": 150}, "thorough": {"runs": 500000, "wall": 2400}}
+TIERS = {"quick": {"runs": 30000, "wall": 240}, "thorough": {"runs": 800000, "wall": 3000}}
 EXHAUSTIVE = {"quick": False, "thorough": False}
 MUTANT_RUNS = 3000
 MUTANT_WALL = 90
@@ -180,6 +180,14 @@ def run_one(ch, cfg):
             if path == PIN_PATH and len(dev.newpin_acks) == acks_before:
                 life["file_changed_before_ack"] = True
         fs.on_change = on_change
+        # a lifetime may start with the device already unlocked in the signer; the PIN is then
+        # only touched if the device power-cycles while the manager serves and a later request
+        # repairs the connection (bring-up through the bootloader on the reconnection path)
+        serve_phase = platform == "ledger" and ch.draw(4, "start-unlocked-then-power-cycle") == 1
+        life["serve_phase"] = serve_phase
+        if serve_phase:
+            dev.mode = L.MODE_SIGNER
+        accepts_before = len(w.net.accept_order)
         proc_task = w.start_manager(force_change=force, default_pin=DEFAULT_PIN)
         proc = w.cur_proc
         outcome = None
@@ -187,7 +195,56 @@ def run_one(ch, cfg):
             outcome = k.run(until=lambda: not w.manager_alive(proc) or w.serving(), max_time=7200.0)
         except StepCap:
             outcome = "step-cap"
-        served = w.serving() or any(True for _ in w.net.accept_order)
+        served = w.serving() or len(w.net.accept_order) > accepts_before
+        served_after_attempt = False
+        if serve_phase and w.serving():
+            import json as _json
+            replies = []
+            done = {}
+
+            def ask():
+                c = w.net.connect()
+                if c is None:
+                    return None
+                c.send(_json.dumps({"command": "getPubKey", "keyId": "m/44'/0'/0'/0/0",
+                                    "version": 5}).encode() + b"\n")
+                return c.drain()
+
+            def client():
+                replies.append(ask())
+                # power cycle: the open handle dies, the device comes back in the bootloader
+                dev.mode = L.MODE_BOOTLOADER
+                dev.pinbuf = bytearray(10)
+                dev._reset_ops()
+                if link.open_handle is not None:
+                    link.open_handle.opened = False
+                replies.append(ask())          # link failure -> device error, repair pending
+                replies.append(ask())          # repair: bring-up through the bootloader
+                attempted = any(kd == "newpin" for kd, _ in dev.pins_seen[seen_before:])
+                r4 = ask()                     # is the manager still serving afterwards?
+                done["attempted_before_probe"] = attempted
+                done["probe"] = r4
+                done["ok"] = True
+            k.spawn(client, "client-%d" % si)
+            try:
+                k.run(until=lambda: "ok" in done or not w.manager_alive(proc) and
+                      all(t.done or t.wait_pred is None for t in k.tasks if t.name.startswith("client")),
+                      max_time=7200.0)
+                k.run(until=lambda: "ok" in done, max_time=600.0)
+            except StepCap:
+                pass
+            life["serve_replies"] = [r[:40].decode("latin-1") if r else None for r in replies]
+            attempted = any(kd == "newpin" for kd, _ in dev.pins_seen[seen_before:])
+            if attempted:
+                # the shutdown is carried out by a helper thread: a request already queued may still
+                # be handled in that window; what must not happen is that the manager keeps running
+                try:
+                    k.run(until=lambda: not w.manager_alive(proc), max_time=w.clock.elapsed + 120.0)
+                except StepCap:
+                    pass
+                if w.manager_alive(proc) and w.serving():
+                    served_after_attempt = True
+            served = False
         # the operator stops a serving manager before the next step (kill: nothing is in flight)
         if w.manager_alive(proc):
             k.fence(proc)
@@ -230,20 +287,22 @@ def run_one(ch, cfg):
             if dev.pin != start_devpin:
                 bad("I2/device-pin-changed-without-ack", tag)
         # ---- I4: after any change attempt the process stops without serving
-        if life["attempt"] and served:
-            bad("I4/served-after-change-attempt", tag)
+        if life["attempt"] and (served or served_after_attempt):
+            bad("I4/served-after-change-attempt%s" % ("/on-reconnection" if served_after_attempt
+                                                       else ""), tag + " %s" % life.get("serve_replies"))
         # ---- I5: some PIN among {file, default} unlocks the device
         if dev.wiped or dev.retries <= 0:
             bad("I5/device-wiped", tag)
         elif dev.pin not in candidates(w):
             bad("I5/no-recoverable-pin/%s" % (cause or "no-fault"),
                 "%s: device PIN %r, file %r, default %r" % (tag, dev.pin, end_file, DEFAULT_PIN))
-        history.append({"force": force, "device_on_new_pin": newpin,
+        history.append({"force": force, "device_on_new_pin": newpin, "start_unlocked_then_power_cycle":
+                        serve_phase, "serve_replies": life.get("serve_replies"),
                         "fault": list(life["fault"]) if life["fault"] else None,
                         "power_cycle_after": cycle, "outcome": w.outcomes.get(proc),
                         "served": served, "acknowledged_new_pin": bool(new_acks),
                         "file_after": end_file.decode("latin-1") if end_file is not None else None})
-        life_states.append((force, newpin, life["fault"][0] if life["fault"] else None,
+        life_states.append((force, newpin, serve_phase, life["fault"][0] if life["fault"] else None,
                             _posclass(life["fault"]), w.outcomes.get(proc, "?").split(":")[0],
                             bool(new_acks)))
         if viol:
